@@ -190,7 +190,9 @@ class AriaNativeGateset(IonqNativeGatesetBase):
         Args:
             atol: A limit on the amount of absolute error introduced by the decomposition.
         """
-        super().__init__(GPIGate, GPI2Gate, MSGate, ops.MeasurementGate, atol=atol)
+        super().__init__(
+            GPIGate, GPI2Gate, MSGate, ops.MeasurementGate, cirq.GlobalPhaseGate, atol=atol
+        )
 
     def __repr__(self) -> str:
         return f'cirq_ionq.AriaNativeGateset(atol={self.atol})'
@@ -218,7 +220,9 @@ class ForteNativeGateset(IonqNativeGatesetBase):
         Args:
             atol: A limit on the amount of absolute error introduced by the decomposition.
         """
-        super().__init__(GPIGate, GPI2Gate, ZZGate, ops.MeasurementGate, atol=atol)
+        super().__init__(
+            GPIGate, GPI2Gate, ZZGate, ops.MeasurementGate, cirq.GlobalPhaseGate, atol=atol
+        )
 
     def __repr__(self) -> str:
         return f'cirq_ionq.ForteNativeGateset(atol={self.atol})'
